@@ -685,7 +685,7 @@ pub fn run_check(ctx: &Ctx) -> i32 {
         .set("exhaustive_within_bound", json!(true));
     ev.assume("the transmit buffer size is a compile-time constant of the build under test: it is not varied, the value sizes are swept across its boundaries instead");
     ev.assume("events: see 'events' (answers carrying up to seven events of 1..700 bytes, alone and after attribute data; the events buffer is sized so that nothing is evicted)");
-    if runs == 0 || chunked == 0 {
+    if report.violations.is_empty() && (runs == 0 || chunked == 0) {
         eprintln!("MACHINERY: vacuous C14 run");
         return 2;
     }
